@@ -235,7 +235,7 @@ func Gen(seed uint64, tier string) any {
 	case x < 75:
 		kinds := []string{"drop", "dup", "swap", "flip", "id", "rcode", "stall", "delay"}
 		if sc.Alg != "" {
-			kinds = append(kinds, "unsign", "wrongkey", "flip", "unsign", "wrongkey", "shortmac", "shortmac", "nokey", "parentkey", "heldkey", "heldkey")
+			kinds = append(kinds, "unsign", "wrongkey", "flip", "unsign", "wrongkey", "shortmac", "shortmac", "nokey", "parentkey", "heldkey", "heldkey", "otherform", "otherform")
 		}
 		nf := 1
 		if core.Chance(r, 20) {
